@@ -90,7 +90,7 @@ def run(tier):
     modes = {e["mode"] for e in reads}
     decls = {e["decl"] for e in reads}
     rcodes = {e["code"] for e in results}
-    if modes != {"all", "some", "none", "seterr", "refuse", "easy"} or decls != {"zero", "smaller", "equal", "larger"} \
+    if modes != {"all", "some", "none", "seterr", "refuse", "easy", "capi"} or decls != {"zero", "smaller", "equal", "larger"} \
             or not {0, 2, 3, 4, 5, 7} <= rcodes or {e["fmt"] for e in reads} != {"text", "binary"}:
         raise Broken("vacuous run: modes %s decls %s codes %s" % (modes, decls, rcodes))
     bad = printed_json(res, "BAD")
